@@ -71,8 +71,11 @@ def check(ctx, run):
     run.rule("R1", "fixed buffer: under the invariant (write_limit_ <= LEN-1, positions_filled_ <= LEN-1) established by every writer of the two fields, add() folded over the boundary lattice of (limit, fill, vsnprintf result) never hands vsnprintf a window outside [0, LEN) and re-establishes the invariant", floor=150, exhaustive=True)
     run.rule("R2", "footer reservation: the leak report folded over scripted table walks (0..3 leaks x allocator kinds x buffer full or not): the write limit is set before any text, the capacity is sampled before the limit is reset, the total line states the number of leaks walked also when the buffer was full, the too-many notice appears iff it was full, the malloc warning iff a malloc leak was seen; the space left by the limit covers the worst-case text added after the reset", floor=5)
     run.rule("R3", "first-difference scans: every loop that advances while two sequences agree also stops at the end of a sequence, unless every construction site of the failure is dominated by a comparison != 0 of the very same operands (frozen exceptions); the scans are also exercised by the R4 folds on operand pairs whose printable renderings coincide", floor=4)
-    run.rule("R5", "bit operands: StringFromMaskedBits (the operand rendering of BITS_EQUAL failures) folded over byte counts 0..9 and 16 x value/mask patterns against the reference rendering; an undefined shift on the way is a violation", floor=1, exhaustive=True)
+    run.rule("R5", "bit operands: StringFromMaskedBits (the operand rendering of BITS_EQUAL failures) folded over byte counts 0..9 and 16 x value/mask patterns against the reference rendering; an undefined shift on the way is a violation; printable() text folded for every byte value and byte pairs (each byte itself, its short escape or the hex escape of its own value)", floor=2, exhaustive=True)
     masked_bits_rule(prog, run, "R5", thorough=ctx.thorough)
+    # string operands are shown through printable(): its text folded for every byte value (shared with C13.R3)
+    from .C13 import printable_text_rule
+    printable_text_rule(prog, run, "R5")
     run.rule("R4", "content: expected before actual in the but-was text; string kinds render through the printable form; the reported position is the raw index and the marker offset the printable one; the padding covers half the window", floor=8)
 
     LEN = [e["v"] for en in prog.enums.values() for e in en["enumerators"] if e["name"] == "SIMPLE_STRING_BUFFER_LEN"]
